@@ -190,6 +190,7 @@ pub fn run_case(c: &Case) -> (String, String) {
     let mut order_ambiguous = false;                  // index-based insert while a dropped bar may or may not still count as a member
     for (k_op, op) in c.ops.iter().enumerate() {
         let flushes_before = rec.flushes();
+        if std::env::var("VERIF_TRACE").is_ok() { eprintln!("op {k_op}"); }
         match op {
             MOp::Adv(d) => { now += d; vh::set_now_ns(now); }
             MOp::Add { loc, arg, len, tpl, prefix, fin } => {
@@ -311,8 +312,8 @@ pub fn run_case(c: &Case) -> (String, String) {
     let snaps: Vec<String> = st.snapshots.iter().zip(st.cursor_at_flush.iter()).map(|(rows, (r, cc))| format!("{r},{cc} {}", show_rows(rows))).collect();
     let obs = format!("calls={} panicked=false {}", st.calls, snaps.join(" ; "));
     drop(st);
-    for b in bars.iter_mut() { if let Some(pb) = b.pb.take() { std::mem::forget(pb); } }
-    std::mem::forget(mp);
+    // everything was observed above; dropping (rather than leaking) the bars keeps a thorough run's memory flat
+    let _ = std::panic::catch_unwind(std::panic::AssertUnwindSafe(|| { for b in bars.iter_mut() { b.pb.take(); } drop(mp); }));
     (obs, verdict)
 }
 
@@ -355,9 +356,11 @@ pub fn run_limited(seed: u64, tier: &str, out: &mut Out) {
 pub fn run_small(seed: u64, tier: &str, out: &mut Out) {
     let mut rng = Rng::new(seed ^ 0x19);
     let n = if tier == "thorough" { 100_000 } else { 2_000 };
-    for _ in 0..n {
+    let only: Option<usize> = std::env::var("VERIF_ONLY").ok().and_then(|v| v.parse().ok());
+    for i in 0..n {
         let mut c = if rng.chance(1, 4) { gen_scenario(&mut rng) } else { gen_case(&mut rng, false) };
         c.small = true; c.h = *rng.pick(&[2u16, 3, 4, 5, 6]); c.w = *rng.pick(&[3u16, 4, 6, 10]);
+        if only.map_or(false, |o| o != i) { continue; }
         let case = encode(&c);
         let (obs, verdict) = run_case(&c);
         out.emit(&case, &format!("{obs} ORACLE {verdict}"));
